@@ -1132,7 +1132,7 @@ func (wd *h3eWorld) rawServerScenarios(stls, ctls *tls.Config, r *u.Rng, n int) 
 		uni      [][]byte
 		wantBody []byte // non-nil: RoundTrip must succeed with wantCode (default 200) and exactly this body
 		wantCode int
-		wantErr  bool   // RoundTrip or body read must fail
+		wantErr  bool // RoundTrip or body read must fail
 		clUnder  bool
 	}
 	body := r.Bytes(r.Range(1, 5000))
